@@ -217,6 +217,13 @@ def _run_structural(ctx):
 
     # ---------------- R3 ids
     r3 = ctx.rule("R3", "every accepted task gets a fresh id from the pool's monotone counter; state queries are keyed by those ids", min_instances=3)
+    # "a state query returns each task's state under its own id": ids start at 0, and 0 is an id like any other on the way back to the user
+    from .evalhelpers import eval_status, S, cached_witness, local_client_witness, report_witness
+    _st, _st_m = eval_status(ctx)
+    r3.check(_st.get("zero") == S("RUNNING"), f"{_st_m.module.relpath}::{_st_m.qual}::opaque-id", "the state of task 0 is looked up under id 0",
+             f"TrackingBackend.status for a target tracked as task id 0 (RUNNING at the pool) gives {_st.get('zero')}: the first task of every pool is never reported under its own id", _st_m.where)
+    report_witness(r3, "src/gwf/backends/local.py::Client.submit::id-0", "src/gwf/backends/local.py:1", cached_witness(ctx, "local-client", local_client_witness),
+                   "the id the pool answers with (0 included) is the id submit returns", select=lambda d: "tid=" in d)
     tid_var = None
     for n in walk_no_nested(enq.node):
         if isinstance(n, ast.Assign) and isinstance(n.value, ast.Call) and idx.canon(n.value.func, enq.module) == "builtins.next" \
@@ -506,9 +513,16 @@ def run(ctx):
         for r in ctx.rules[n0:]:
             r.min_instances = 0
     rule_logging_cannot_raise(ctx)
+    from .shared import rule_coroutines_awaited
+    r8 = ctx.rule("R8", "requests are carried out: every coroutine of the pool that is called is awaited or scheduled (no call statement drops a coroutine object)")
+    rule_coroutines_awaited(ctx, r8)
+    # cancelling one task (a client's request) must not reach the tasks it was waiting for: they are other accepted tasks
+    from .evalhelpers import task_coroutine_witness, report_witness
+    report_witness(r8, "src/gwf/backends/local.py::Scheduler.try_handle_task::isolation", "src/gwf/backends/local.py:1", cached_witness(ctx, "task", task_coroutine_witness),
+                   "cancelling a task that waits for its dependencies leaves those dependencies running (no unshielded gather)", select=lambda d: "gather" in d)
     rules = ctx.rules[n0:]
     if not ws[1]:  # differences are reported by R4's session check; only an agreeing evaluation may override shape complaints
-        ctx.reconcile(rules, lambda c: "Server.handle_connection" in c or "Server.start_server" in c, ws, "src/gwf/backends/local.py::Server.handle_connection", "src/gwf/backends/local.py:1")
+        ctx.reconcile(rules, lambda c: ("Server.handle_connection" in c or "Server.start_server" in c) and "::unawaited-" not in c, ws, "src/gwf/backends/local.py::Server.handle_connection", "src/gwf/backends/local.py:1")
     if not wc[1]:
         ctx.reconcile(rules, lambda c: "::Client." in c, wc, "src/gwf/backends/local.py::Client", "src/gwf/backends/local.py:1")
     ctx.reconcile(rules, lambda c: c.endswith("Scheduler.enqueue_task") or "enqueue_task::id" in c or "enqueue_task::registers" in c, we, "src/gwf/backends/local.py::Scheduler.enqueue_task",
